@@ -225,6 +225,8 @@ def gen_feed(rng, case, frac_reporting=None, threshold=100, special=True, n_unex
         c = rng.choice(known_counties) if rng.random() < 0.6 else f"9{rng.randint(10, 99)}"
         d = (rng.choice(known_d) if rng.random() < 0.6 else rng.choice(["7", "70"])) if district else None
         uid = unit_id(case["unit_type"], d, c, f"x{k}")
+        if case["unit_type"].startswith("precinct") and rng.random() < 0.35:
+            uid = uid + "_A"      # split precinct: the precinct part of the id itself contains an underscore
         if case["unit_type"] in ("county", "county-district") and uid in used:
             c = f"9{rng.randint(10, 99)}"
             uid = unit_id(case["unit_type"], d, c, f"x{k}")
